@@ -131,7 +131,7 @@ func c05Instances(name string, lvl int) []c05Inst {
 			base := joinInts(t)
 			add(c05Inst{construct: "^X.Y.Z", rng: "^" + base, lo: base, loIncl: true, hi: sem(caretUpper(t)) + "-0"})
 			add(c05Inst{construct: "~X.Y.Z", rng: "~" + base, lo: base, loIncl: true, hi: sem(tildeUpper(t)) + "-0"})
-			for _, pre := range []string{"-alpha.2", "-0", "-rc"} {
+			for _, pre := range []string{"-alpha.2", "-0", "-rc", "+build.5", "-rc.1+b-1"} {
 				add(c05Inst{construct: "^X.Y.Z-pre", rng: "^" + base + pre, lo: base + pre, loIncl: true, hi: sem(caretUpper(t)) + "-0"})
 				add(c05Inst{construct: "~X.Y.Z-pre", rng: "~" + base + pre, lo: base + pre, loIncl: true, hi: sem(tildeUpper(t)) + "-0"})
 			}
@@ -164,7 +164,7 @@ func c05Instances(name string, lvl int) []c05Inst {
 			base := joinInts(t)
 			add(c05Inst{construct: "^X.Y.Z", rng: "^" + base, lo: base, loIncl: true, hi: sem(caretUpper(t)), hiCore: caretUpper(t)})
 			add(c05Inst{construct: "~X.Y.Z", rng: "~" + base, lo: base, loIncl: true, hi: sem(tildeUpper(t)), hiCore: tildeUpper(t)})
-			for _, pre := range []string{"-alpha.2", "-0", "-rc"} {
+			for _, pre := range []string{"-alpha.2", "-0", "-rc", "+build.5", "-rc.1+b-1"} {
 				add(c05Inst{construct: "^X.Y.Z-pre", rng: "^" + base + pre, lo: base + pre, loIncl: true, hi: sem(caretUpper(t)), hiCore: caretUpper(t)})
 				add(c05Inst{construct: "~X.Y.Z-pre", rng: "~" + base + pre, lo: base + pre, loIncl: true, hi: sem(tildeUpper(t)), hiCore: tildeUpper(t)})
 			}
@@ -255,7 +255,7 @@ func c05Instances(name string, lvl int) []c05Inst {
 		for _, t := range t3 {
 			base := joinInts(t)
 			add(c05Inst{construct: "~>X.Y.Z", rng: "~> " + base, lo: base, loIncl: true, hi: sem(tildeUpper(t)), hiCore: tildeUpper(t)})
-			for _, pre := range []string{"-rc.1", "-0", "-dev"} {
+			for _, pre := range []string{"-rc.1", "-0", "-dev", "+build.5"} {
 				add(c05Inst{construct: "~>X.Y.Z-pre", rng: "~> " + base + pre, lo: base + pre, loIncl: true, hi: sem(tildeUpper(t)), hiCore: tildeUpper(t)})
 			}
 		}
@@ -367,6 +367,12 @@ func c05Probes(name string, lvl int) (strs []string, cores [][]int, pre []bool) 
 	}
 	// shorter and longer arities
 	for _, t := range intTuples([]int{0, 1, 2, 3, 10}, 2) {
+		switch name {
+		case "gem", "pypi", "nuget", "maven", "conan", "composer":
+			strs, cores, pre = append(strs, joinInts(t)), append(cores, t), append(pre, false)
+		}
+	}
+	for _, t := range intTuples([]int{0, 1, 2, 3, 10}, 1) {
 		switch name {
 		case "gem", "pypi", "nuget", "maven", "conan", "composer":
 			strs, cores, pre = append(strs, joinInts(t)), append(cores, t), append(pre, false)
@@ -567,7 +573,7 @@ func init() {
 				"dont_care_points":              r.Counters["dont_care"],
 			}
 		},
-		Rule:        "for each of npm, cargo, composer, conan, gem, hex, pypi, nuget, maven: every documented shorthand construct x every base tuple over {0,1,2} (thorough {0,1,2,9}) of every documented arity, plus every tuple over {0,1} with one component replaced by 10, 65535 or 65536 (thorough also 4294967295, 4294967296) (zeros in leading positions included; pre-release bases where documented) is parsed and evaluated on a probe grid {0,1,2,3,9,10,11,65534..65537}^3 (thorough {0,1,2,3,8,9,10,11,65534..65537,4294967294..4294967297}^3) as release / lowest / middle pre-release plus 2- and 4-component probes; the expected membership is the documented interval [lo,hi) evaluated with the ecosystem's own Compare. Don't-care (counted, not checked): pre-releases of an exclusive upper bound where the documentation states no pre-release floor (cargo, composer, conan, gem, hex, pypi). Composer probes are stable versions, pypi probes final or post releases. All ranges of a unit are parsed before any is evaluated. distinct_nontrivial = evaluations whose expected membership is true.",
+		Rule:        "for each of npm, cargo, composer, conan, gem, hex, pypi, nuget, maven: every documented shorthand construct x every base tuple over {0,1,2} (thorough {0,1,2,9}) of every documented arity, plus every tuple over {0,1} with one component replaced by 10, 65535 or 65536 (thorough also 4294967295, 4294967296) (zeros in leading positions included; pre-release bases where documented) is parsed and evaluated on a probe grid {0,1,2,3,9,10,11,65534..65537}^3 (thorough {0,1,2,3,8,9,10,11,65534..65537,4294967294..4294967297}^3) as release / lowest / middle pre-release plus 1-, 2- and 4-component probes; the expected membership is the documented interval [lo,hi) evaluated with the ecosystem's own Compare. Don't-care (counted, not checked): pre-releases of an exclusive upper bound where the documentation states no pre-release floor (cargo, composer, conan, gem, hex, pypi). Composer probes are stable versions, pypi probes final or post releases. All ranges of a unit are parsed before any is evaluated. distinct_nontrivial = evaluations whose expected membership is true.",
 		Assumptions: []string{"the desugaring table is written from each ecosystem's documentation as restated in the property (npm ^1.2.3 = >=1.2.3 <2.0.0-0, gem ~>1.2.3 = >=1.2.3 <1.3, hex ~>2.1 = >=2.1.0 <3.0.0, pypi ~=2.2 = >=2.2 <3.0, ...)", "maven bare versions (soft requirements) are not claimed"},
 	})
 }
